@@ -69,8 +69,29 @@ def main(tier_="quick"):
         ee[0]["new_id"] = 12
     a3, at3 = mk2(m3)
     results["mkdir2_flip_eexist"] = dict(accepted=a3, rejected_at=at3, detected=bool(ee) and not a3)
+    # 8.-9. TraceRemove2: a two-process remove_all run is accepted; a dropped unlinkat and a reordered listing are rejected
+    rtree = mkrm.CONC_TREES["rm"]
+    rcase = dict(id="selfrm", tree=rtree, feat={"openat2": True}, trace=True, raw=False, procs=2, calls=[dict(op="remove_all", path="a/b", proc=0), dict(op="remove_all", path="a/b", proc=1)],
+                 order=[0, 0, 0, 1, 1, 0, 0, 0, 1, 1, 1] + [0] * 600, post=True)
+    rres = run_pv([rcase], jobs=1, tag="selfrm")[0]
+    def rm2(r):
+        o = trace_conformance("MC_TraceRemove2.tla", "TraceRemove2.cfg", project_remove2, [(rcase, r)], batch=1)
+        return o["accepted"] == 1 and not o["drift"] and not o["invariant_violations"], (o["drift"] or [{}])[0].get("at_event")
+    okr, _ = rm2(rres)
+    results["genuine"]["traceremove2_accepted"] = okr
+    q1 = copy.deepcopy(rres)
+    iu = [i for i, e in enumerate(q1["events"]) if e.get("ev") == "sys" and e.get("nr") == "unlinkat" and e.get("ret") == 0][0]
+    del q1["events"][iu]
+    b1, bt1 = rm2(q1)
+    results["remove2_drop_unlinkat"] = dict(accepted=b1, rejected_at=bt1, detected=not b1)
+    q2 = copy.deepcopy(rres)
+    gd = [e for e in q2["events"] if e.get("ev") == "sys" and e.get("nr") == "getdents64" and len(e.get("names") or []) >= 4]
+    if gd:
+        gd[0]["names"] = gd[0]["names"][:2] + gd[0]["names"][2:][::-1]
+    b2, bt2 = rm2(q2)
+    results["remove2_reorder_listing"] = dict(accepted=b2, rejected_at=bt2, detected=bool(gd) and not b2)
     print(json.dumps(results, indent=1))
-    allok = results["genuine"].get("tracemkdir2_accepted") and results["genuine"]["tracefs_bad"] == 0 and results["genuine"]["tracefs_kmm"] == 0 and results["genuine"]["tracelookup_accepted"] and all(
+    allok = results["genuine"].get("tracemkdir2_accepted") and results["genuine"].get("traceremove2_accepted") and results["genuine"]["tracefs_bad"] == 0 and results["genuine"]["tracefs_kmm"] == 0 and results["genuine"]["tracelookup_accepted"] and all(
         v.get("detected") for k, v in results.items() if k != "genuine")
     os.makedirs(EVID, exist_ok=True)
     json.dump(dict(binding_selftest=results, ok=allok), open(os.path.join(EVID, "binding_selftest.json"), "w"), indent=1)
